@@ -105,7 +105,9 @@ def server_scenario_st(tier):
                                # callback: absent / plain / raises after it
                                # ran / disconnects the client that answered
                                'cb': st.sampled_from([False, True, True,
-                                                      'raise', 'disc'])}),
+                                                      'raise', 'disc']),
+                               # emit(..., ignore_queue=True): local only
+                               'iq': st.sampled_from([False, False, True])}),
         st.fixed_dictionaries({'op': st.just('call'), 'c': ci,
                                'ack': st.one_of(st.none(), st.lists(
                                    arg, max_size=2))}),
@@ -153,6 +155,10 @@ def server_scenario_st(tier):
     return st.fixed_dictionaries({
         'async_handlers': st.booleans(),
         'always_connect': st.booleans(),
+        # the client manager: the default one, or a message-queue manager
+        # whose publications are part of what is compared (nothing arrives
+        # on its channel)
+        'manager': st.sampled_from(['plain', 'plain', 'pubsub']),
         'decisions': st.lists(decision, min_size=1, max_size=5),
         'init': st.lists(st.tuples(tt, st.integers(0, 2)), min_size=2,
                          max_size=5),
@@ -184,9 +190,28 @@ def run_server_scenario(case, aio, coro=False, setup=None, n_transports=4):
     """Returns (normalised trace, labels). setup(world) may instrument the
     server before any handler is registered / after (returns a hook dict)."""
     import socketio
+    extra = {}
+    published = []
+    if case.get('manager') == 'pubsub':
+        from socketio.async_pubsub_manager import AsyncPubSubManager
+        from socketio.pubsub_manager import PubSubManager
+        base = AsyncPubSubManager if aio else PubSubManager
+        plain = socketio.AsyncManager if aio else socketio.Manager
+
+        class RecordingManager(base):
+            def initialize(self):
+                plain.initialize(self)      # (no listener: a silent channel)
+            if aio:
+                async def _publish(self, data):
+                    published.append(data)
+            else:
+                def _publish(self, data):
+                    published.append(data)
+        extra['client_manager'] = RecordingManager()
     w = World(aio=aio, async_handlers=case['async_handlers'],
               always_connect=case['always_connect'],
-              namespaces=SERVED)
+              namespaces=SERVED, **extra)
+    w.published = published
     try:
         return _run(case, aio, coro and aio, setup, w, socketio,
                     n_transports)
@@ -363,6 +388,15 @@ def _run(case, aio, coro, setup, w, socketio, n_transports):
     seen_ids = {}     # (transport, ns) -> ids of events that want an ACK
 
     def flush(step):
+        while w.published:
+            m = dict(w.published.pop(0))
+            m.pop('host_id', None)
+            if m.get('namespace') == '/admin':
+                continue    # (the admin's own reports)
+            cbk = m.get('callback')
+            if isinstance(cbk, tuple):
+                m['callback'] = list(cbk[:2]) + ['<id>']
+            trace.append(('published', sorted(m.items(), key=repr)))
         for t in app_ts:
             try:
                 pk = w.recv(t)
@@ -489,6 +523,8 @@ def _run(case, aio, coro, setup, w, socketio, n_transports):
                         if mode == 'disc':
                             sio.disconnect(tsid, namespace=tns)
                 kw['callback'] = cb
+            if op.get('iq'):
+                kw['ignore_queue'] = True
             api(step, 'emit', lambda: sio.emit('ev', op['data'],
                                                namespace=ns, **kw))
         elif not lv:
